@@ -6,7 +6,7 @@ MAIN = "c18"
 MODULES = ["geom", "pos", "stubs", "step", "c18"]
 ACCESS = None
 DUMP = []
-PARALLEL = 4
+PARALLEL = 16
 
 GEOM_STUBS = [
     ("crate::chess::movegen::tables::magics::rook_attacks", "stubs::s_rook"),
@@ -37,18 +37,34 @@ MANIFEST = {
 }
 
 
-def inst(n):
-    name = f"c18_ambiguity_k{n}"
+KINDS = ["pawn", "knight", "bishop", "rook", "queen", "king"]
+SQN = lambda i: "abcdefgh"[i % 8] + str(i // 8 + 1)
+POOL = [27, 35, 0, 63, 11, 52, 30, 33, 5, 58]
+
+
+def inst(n, kind, dst, side):
+    name = f"c18_ambiguity_k{n}_{KINDS[kind]}_{SQN(dst)}_{'wb'[side]}"
     attrs = ["#[kani::proof]", "#[kani::unwind(8)]", "#[kani::stub(crate::chess::movegen::gen::generate_legal_moves, c18::stub_generate)]"]
     attrs += [f"#[kani::stub({a}, {b})]" for a, b in GEOM_STUBS]
-    return name, "\n".join(attrs) + f"\npub fn {name}() {{ c18::ambiguity({n}); }}\n"
+    return name, "\n".join(attrs) + f"\npub fn {name}() {{ c18::ambiguity({n}, {kind}, {dst}, {side}); }}\n"
 
 
 def jobs(tier, seed):
+    import os, random
+    rnd = random.Random(seed)
     n = 4 if tier == "thorough" else 3
-    name, src = inst(n)
-    return [Job(name, f"disambiguation class == standard, <= {n} like men, any valid position", gen=src, timeout=3000, mem_gb=24, checks="functional", witness=False,
-                min_covers=2, params={"max_like_men": n})]
+    if tier == "thorough":
+        cases = [(k, d, s_) for k in (1, 2, 3, 4) for d in range(64) for s_ in (0, 1)]
+    else:
+        cases = [(k, d, rnd.randrange(2)) for k in (1, 2, 3, 4) for d in [27, rnd.choice(POOL[1:])]]
+    if os.environ.get("C18_CASES"):
+        cases = [tuple(int(y) for y in x.split(":")) for x in os.environ["C18_CASES"].split(",")]
+    js = []
+    for k, d, s_ in cases:
+        name, src = inst(n, k, d, s_)
+        js.append(Job(name, f"disambiguation class == standard for {KINDS[k]} moves to {SQN(d)} ({'white' if s_ == 0 else 'black'}), <= {n} like men, any valid position",
+                      gen=src, timeout=3000, mem_gb=24, checks="functional", witness=False, min_covers=1, params={"max_like_men": n, "kind": KINDS[k], "to": SQN(d)}))
+    return js
 
 
 def decode(job, vals):
